@@ -9,7 +9,7 @@
 (*                 up front: the full finite product.                                           *)
 (* Label ids stand for the concrete labels of Conc (resolved through the real label table).    *)
 EXTENDS Encoding, TLC, Json
-CONSTANTS KnownDefects, Mode, Labels, DeclLabels, Forms, BomKinds, MaxWin, MaxDecl, Edge, Export, CheckProperty
+CONSTANTS KnownDefects, Mode, Labels, Detectors, DeclLabels, Forms, BomKinds, MaxWin, MaxDecl, Edge, Export, CheckProperty
 
 D == KnownDefects
 Conc(l) == CASE l = "A" -> <<107, 111, 105, 56, 45, 114>>                     \* koi8-r
@@ -22,7 +22,7 @@ Conc(l) == CASE l = "A" -> <<107, 111, 105, 56, 45, 114>>                     \*
              [] l = "bogus" -> <<98, 111, 103, 117, 115>>
              [] l = "empty" -> <<>>
              [] OTHER -> None                                                 \* "none" (argument absent) / "unset"
-ArgNames == {"o", "t", "p", "l", "d"}
+ArgNames == {"o", "t", "p", "l", "d"}       \* the five *_encoding arguments; args.c = the detector's verdict ("off" or a label id)
 S_ContentType == <<67, 111, 110, 116, 101, 110, 116, 45, 84, 121, 112, 101>>                 \* Content-Type
 S_prefix == <<116, 101, 120, 116, 47, 104, 116, 109, 108, 59, 32, 99, 104, 97, 114, 115, 101, 116, 61>>   \* text/html; charset=
 \* a declaration = [l: label id, f: form]; forms: charset attribute, http-equiv pragma, content= without http-equiv
@@ -46,18 +46,19 @@ Src(b, a, ds, n, DD) ==
     [bom |-> [bom |-> IF b = "unset" THEN "none" ELSE b, seek |-> BomLen(b)],
      override |-> GetEncoding(Conc(a.o)), transport |-> GetEncoding(Conc(a.t)), parent |-> GetEncoding(Conc(a.p)),
      likely |-> GetEncoding(Conc(a.l)), default |-> GetEncoding(Conc(a.d)),
+     detector |-> IF a.c \in {"off", "unset"} THEN "off" ELSE GetEncoding(Conc(a.c)),
      abs |-> TRUE, meta0 |-> AbsPrescan(ds, IF n < 0 THEN 0 ELSE n, DD)]
 
-Unset == [a \in ArgNames |-> "unset"]
+Unset == [a \in ArgNames \cup {"c"} |-> "unset"]
 WinSeqs == UNION {[1..k -> Decls] : k \in 0..MaxWin}
 Init ==
     /\ st = EncInit /\ i = 0 /\ init = EncInit /\ log = <<>> /\ edge \in Edge
     /\ IF Mode = "product"
-       THEN /\ bomk \in BomKinds /\ args \in [ArgNames -> Labels]
+       THEN /\ bomk \in BomKinds /\ \E a \in [ArgNames -> Labels], c \in Detectors : args = (a @@ ("c" :> c))
             /\ decls \in WinSeqs /\ nwin = Len(decls)
        ELSE bomk = "unset" /\ args = Unset /\ decls = <<>> /\ nwin = -1
 
-ArgOf(pc) == CASE pc = "override" -> "o" [] pc = "transport" -> "t" [] pc = "parent" -> "p" [] pc = "likely" -> "l" [] pc = "default" -> "d"
+ArgOf(pc) == CASE pc = "override" -> "o" [] pc = "transport" -> "t" [] pc = "parent" -> "p" [] pc = "likely" -> "l" [] pc = "default" -> "d" [] pc = "detect" -> "c"
 Chain1(b2, a2, ds2, n2) ==
     LET s2 == EncStep(st, Src(b2, a2, ds2, n2, D), D) IN
     /\ bomk' = b2 /\ args' = a2 /\ decls' = ds2 /\ nwin' = n2 /\ st' = s2
@@ -65,8 +66,8 @@ Chain1(b2, a2, ds2, n2) ==
     /\ UNCHANGED <<i, log, edge>>
 StepChain ==
     \/ st.pc = "bom" /\ \E b \in (IF Mode = "product" THEN {bomk} ELSE BomKinds) : Chain1(b, args, decls, nwin)
-    \/ st.pc \in {"override", "transport", "parent", "likely", "default"} /\
-       \E l \in (IF Mode = "product" THEN {args[ArgOf(st.pc)]} ELSE Labels) :
+    \/ st.pc \in {"override", "transport", "parent", "likely", "default", "detect"} /\
+       \E l \in (IF Mode = "product" THEN {args[ArgOf(st.pc)]} ELSE IF st.pc = "detect" THEN Detectors ELSE Labels) :
            Chain1(bomk, [args EXCEPT ![ArgOf(st.pc)] = l], decls, nwin)
     \/ st.pc = "meta" /\ \E ds \in (IF Mode = "product" THEN {decls} ELSE WinSeqs) : Chain1(bomk, args, ds, Len(ds))
     \/ st.pc \in {"fallback", "ready"} /\ Chain1(bomk, args, decls, nwin)
